@@ -160,7 +160,7 @@ func (g *genState) ballot(node, pub int, hh, rr int64, kind, v int, ex []int, fu
 	// what the ballotbox is given as expels: Ballot.Expels()
 	if we, ok := bl.real.(base.HasExpels); ok {
 		for _, e := range we.Expels() {
-			i, ok := w.ehash[e.Fact().Hash().String()]
+			i, ok := w.ehash[e.Hash().String()]
 			if !ok {
 				return nil
 			}
